@@ -57,6 +57,7 @@ class StorageSetup(Contract):
         # constructor-established facts (Storage.__init__ asserts): caps non-negative, start level <= size
         H.assume(vals['cap_in'] >= 0)
         H.assume(vals['cap_out'] >= 0)
+        H.assume(vals['start_level'] <= vals['size'])
         self_obj = Obj('Storage', name=H.str('asset_name'), nodes=nodes, wacc=H.real('wacc'), start=None, end=None,
                        freq=None, profile=None, price=case['price'], block_size=None, no_simult_in_out=case['nosim'],
                        max_store_duration=None, periodicity=None, periodicity_duration=None, **vals)
@@ -235,15 +236,15 @@ class StorageSetup(Contract):
         rI = ctx['R'].get('__fun__')['I']
         k = z3.Int('menu!k')
         v = ctx['vals']
-        return [z3.ForAll([k], z3.Implies(z3.And(k >= 0, k < ctx['R'].get('T')), rI(k) == rI(0) + k)),
-                H.real('wacc') == 0, z3.ForAll([k], ctx['df'](k) == 1), ctx['g'].get('T') >= 1,
-                v['start_level'] <= v['size'], v['size'] >= 0]
+        return [z3.ForAll([k], z3.Implies(z3.And(k >= 0, k < ctx['R'].get('T')), rI(k) == rI(0) + k)), ctx['g'].get('T') >= 1], [
+                H.real('wacc') == 0, z3.ForAll([k], ctx['df'](k) == 1)]
 
     def native(self, case, P):
         import numpy as np
         import eaopack as eao
         from pyvc import native as N
         T, n = int(P['g_T']), int(P['r_n'])
+        P = N.realisable_wacc(P)
         tg, synthetic = N.synthetic_grid(T, P['g_dt'])
         rI = [int(x) for x in P['r_I']]
         if n and rI != list(range(rI[0], rI[0] + n)):
